@@ -471,3 +471,91 @@ func exitsOnlyAt(w *World, m *machine, fn *ssa.Function, paths []*Path, p *Path,
 	}
 	return false
 }
+
+func init() {
+	register(&Rule{Name: "NUM.decimal", Min: 1, Doc: "the lexer drops the leading zeros of a number: the text handed verbatim to the Go expression evaluator must not read as an octal literal", Run: ruleNumDecimal})
+}
+
+// ruleNumDecimal: the evaluator receives the token texts verbatim (EXPR.eval),
+// and the Go evaluator reads a literal with a leading 0 as octal.  Decimal
+// meaning therefore needs the lexer to consume leading '0' runes of a number
+// without recording them.
+func ruleNumDecimal(w *World, r *RuleResult) {
+	var m *machine
+	for _, mm := range machines(w) {
+		if mm.isLexer {
+			m = mm
+		}
+	}
+	if m == nil {
+		r.undecided("anchor", "-", "lexer machine not found")
+		return
+	}
+	// does the evaluator transform the token text itself? then this is not the lexer's job
+	if ev := Asm(w).EvalExpr; ev != nil {
+		ps, _ := w.Paths(ev)
+		for _, p := range ps {
+			for _, e := range p.Events {
+				if e.Kind == "call" && e.Callee != nil && (strings.HasPrefix(fnKey(e.Callee), "strings.Trim") || strings.HasPrefix(fnKey(e.Callee), "strconv.")) {
+					for _, a := range e.Args {
+						if a.contains(func(x *T) bool { return x.Op == "sel" && x.S == "val" }) && strings.HasPrefix(fnKey(e.Callee), "strings.Trim") {
+							r.ok("evaluator-normalises", w.Pos(ev.Pos()), "the evaluator trims the token text itself")
+							return
+						}
+					}
+				}
+			}
+		}
+	}
+	tt := tokenTypes(w)
+	found := false
+	for _, s := range m.states {
+		ps, err := w.Paths(s)
+		if err != nil {
+			continue
+		}
+		sendsNumber := false
+		for _, p := range ps {
+			for i := range p.Events {
+				if v, ok := sendOf(w, &p.Events[i]); ok && v.Op == "struct" {
+					if t := structField(v, "typ"); t != nil && t.IsConstVal(tt["tokNumber"]) {
+						sendsNumber = true
+					}
+				}
+			}
+		}
+		if !sendsNumber {
+			continue
+		}
+		found = true
+		skips := false
+		for _, p := range ps {
+			zero := hasCond(p, func(a *T, v bool) bool {
+				return a.Op == "eq" && v && a.A[1].IsConstVal('0') && m.lookTok(a.A[0])
+			})
+			if !zero {
+				continue
+			}
+			consumes, records := false, false
+			for i := range p.Events {
+				e := &p.Events[i]
+				if m.isNextCall(e) {
+					consumes = true
+				}
+				if e.Kind == "builtin" && e.Method == "append" {
+					records = true
+				}
+				if e.Kind == "call" && e.Callee != nil && strings.Contains(fnKey(e.Callee), "WriteRune") {
+					records = true
+				}
+			}
+			if consumes && !records {
+				skips = true
+			}
+		}
+		r.check(skips, s.Name()+"/leading-zeros", w.Pos(s.Pos()), "leading '0' runes of a number are consumed without being recorded", "the number state records every digit, including leading zeros: '010' reaches the Go expression evaluator verbatim and is read as the octal literal 8")
+	}
+	if !found {
+		r.undecided("number-state", "-", "no lexer state sends a number token")
+	}
+}
